@@ -27,7 +27,7 @@ from harness.core import sp
 
 PID = "C17"
 RULE = ("cases: (a) end-to-end: abstract dataclass trees (1-5 fields, optional nested dataclass child, types from the CLI "
-        "grammar int/float/str/bool/Path/Enum, List[atom], Tuple fixed/variadic, Union, Optional of those; defaults "
+        "grammar int/float/str/bool/Path/Enum, List[atom | Union | Optional], Tuple fixed/variadic, Union, Optional of those; defaults "
         "missing/None/value) each rendered in 5 annotation styles x {flat, 2-3 level chain (sometimes re-declaring a "
         "field)} x {module scope, function scope with the parse inside the defining call} = 20 real modules, parsed "
         "with the empty command line, 3-4 valid and 2-3 invalid command lines (bad token, wrong arity, unknown option), "
@@ -35,8 +35,8 @@ RULE = ("cases: (a) end-to-end: abstract dataclass trees (1-5 fields, optional n
         "Optional[Child] / Union[Child, None] / Child | None = None; Enum and nested classes live in the same scope as the "
         "outer class; function-scope modules also define module-level globals of the same names with different contents, "
         "and the defining function is executed 3 times (every call's parses are compared, and every enum member / "
-        "dataclass instance returned must belong to the classes created by that very call); separate low-frequency streams for the "
-        "recorded findings; (b) unit ops on annotation objects built directly (typing / builtin / UnionType mixes, "
+        "dataclass instance returned must belong to the classes created by that very call); dense regression streams for the two repaired "
+        "defects (lists of unions; unions over variadic tuples); (b) unit ops on annotation objects built directly (typing / builtin / UnionType mixes, "
         "arbitrary nesting): the utils.py classifiers, _replace_UnionType_with_typing_Union, the get_arg_options "
         "digest of a one-field dataclass; (c) the `A | B` text rewriter on generated and mangled texts; (d) string "
         "resolution through get_field_type_from_annotations; (e) field order of inheritance chains with overrides. "
@@ -107,6 +107,8 @@ def t_nonopt(rng):
     if p < 0.26:
         return t_atom(rng)
     if p < 0.44:
+        if rng.random() < 0.3:       # a list of unions / optionals, in every style
+            return {"k": "list", "item": rng.choice([t_union(rng), {"k": "opt", "inner": t_atom(rng)}])}
         return {"k": "list", "item": t_atom(rng)}
     if p < 0.62:
         items = [t_atom(rng) for _ in range(rng.choice([1, 2, 2, 3]))]
@@ -119,24 +121,22 @@ def t_nonopt(rng):
 
 
 def t_field(rng):
-    """a field type of the CLI grammar (no recorded-finding shape)"""
+    """a field type of the CLI grammar"""
     t = t_nonopt(rng)
     if rng.random() < 0.35:
-        if t["k"] == "vtuple" or (t["k"] == "union" and has_kind(t, "vtuple")):
-            return t
         return {"k": "opt", "inner": t}
     return t
 
 
 def t_d18(rng):
-    """a list whose item type is a union / optional (finding D18)"""
+    """a list whose item type is a union / optional (defect D18, repaired: kept as a dense regression stream)"""
     item = rng.choice([t_union(rng), {"k": "opt", "inner": t_atom(rng)}])
     t = {"k": "list", "item": item}
     return {"k": "opt", "inner": t} if rng.random() < 0.4 else t
 
 
 def t_vt(rng):
-    """an Optional / Union with a variadic tuple below it (finding: postponed `tuple[X, ...] | None`)"""
+    """an Optional / Union with a variadic tuple below it (postponed `tuple[X, ...] | None`, repaired: regression stream)"""
     vt = {"k": "vtuple", "item": t_atom(rng)}
     p = rng.random()
     if p < 0.6:
@@ -251,7 +251,7 @@ def item_for_default(t):
     if t["k"] == "union":
         return item_for_default(t["alts"][0])
     if t["k"] in ("list", "tuple", "vtuple"):
-        return {"k": "int"}          # only reached in finding streams; any literal will do
+        return {"k": "int"}          # only reached with lists of unions; any literal will do
     return t
 
 
@@ -1411,63 +1411,23 @@ def neighbours(case, rng):
 # open findings
 
 
-def _field_types(case):
-    return [f["ty"] for f in all_leaf_fields(case["case"]["tree"])]
-
-
-def _is_unionish(t):
-    return t["k"] in ("union", "opt")
-
-
-def _d18_shape(t, style):
-    """a list of union/optional items that reaches get_argparse_type_for_container un-normalised"""
-    if t["k"] == "list" and _is_unionish(t["item"]):
-        return True
-    # live PEP 604: Optional[list[A | B]] is not normalised either (the postponed one is, by the recursive replace)
-    if style == "pep604" and t["k"] == "opt" and t["inner"]["k"] == "list" and _is_unionish(t["inner"]["item"]):
-        return True
-    return False
-
-
-def _sig_d18(case, obs, fail):
-    if case["op"] != "annot.e2e" or fail.get("clause") != "style-invariance":
-        return False
-    if fail.get("style") not in ("pep604", "post_604") or fail.get("got") != ["raise", "ValueError"]:
-        return False
-    o = obs["renderings"][fail["rendering"]]
-    return o.get("setup") == "raise:ValueError" and any(_d18_shape(t, fail["style"]) for t in _field_types(case))
-
-
-def _vt_shape(t):
-    return _is_unionish(t) and has_kind(t, "vtuple")
-
-
-def _sig_vt(case, obs, fail):
-    if case["op"] != "annot.e2e" or fail.get("clause") != "style-invariance":
-        return False
-    if fail.get("style") != "post_604" or fail.get("got") != ["raise", "NotImplementedError"]:
-        return False
-    o = obs["renderings"][fail["rendering"]]
-    return o.get("setup") == "raise:NotImplementedError" and any(_vt_shape(t) for t in _field_types(case))
-
-
-FINDINGS = {
-    "C17-D18-list-of-pep604-union": _sig_d18,
-    "C17-postponed-union-over-variadic-tuple": _sig_vt,
-}
+FINDINGS = {}        # no open finding: the two recorded defects are repaired, their replays are plain corpus cases
 
 MANIFEST = {
-    "text": ("Proof, partial (two named gaps). Lean theorems over a model of the annotation objects CPython hands to "
+    "text": ("Proof, full on the command-line type grammar. Lean theorems over a model of the annotation objects CPython hands to "
              "simple_parsing (plain class, typing alias, builtin alias, types.UnionType, postponed text) and of the code "
              "that looks at them (the utils.py classifiers, get_parsing_fn / get_argparse_type_for_container, "
              "_replace_UnionType_with_typing_Union, the string resolution of get_field_type_from_annotations, the type-"
              "dependent part of get_arg_options): for every type expression of the command-line grammar — unbounded "
              "nesting of lists, variadic tuples, unions and optionals, tuples of any length — the argparse options a field "
-             "gets (branch, required, nargs, type= callable) are the same in all five renderings; resolution is "
+             "gets (branch, required, nargs, type= callable) are the same in all five renderings, with no rendering excluded (c17_style_invariant, under the "
+             "evaluator assumption, for expressions in CPython's normal form: unions have >= 2 pairwise different members); "
+             "the recursive UnionType replacement yields exactly the builtin-style object; resolution is "
              "idempotent (the in-place update of Field.type is harmless); a class whose fields are split over a linear "
              "inheritance chain has the same field list as the flat class; the text rewriter is the identity on `|`-free "
-             "text and maps flat unions to Union[...]. The full statement is refuted by witnesses for the two recorded "
-             "findings. The model is tied to the code by seven correspondence ops, and the property itself (equal "
+             "text and maps flat unions to Union[...]. The grammar's one restriction is named (ListItemsNotContainers: a "
+             "list whose items are themselves containers is not a command-line type; c17_grammar_boundary shows why); the two "
+             "repaired defects are regression examples. The model is tied to the code by seven correspondence ops, and the property itself (equal "
              "results / exit codes of all 20 renderings of a tree) is evaluated on real modules."),
     "note": ("Trusted: Lean kernel + propext/Classical.choice/Quot.sound; CPython's evaluation of annotation text and its "
              "typing representations (observed and passed to the model as the evaluator table); stdlib argparse; the "
